@@ -192,6 +192,27 @@ PROPS['C09'].update({
 PROPS['C02']['units'] = ['pwl_schema', 'pwl_tree']
 PROPS['C02']['level_text'] = PROPS['C02']['level_text'].replace('BOUNDED (bc compose', 'Also PROVED at tree level: AffTree::apply_func / apply_func_at_node compose the affine map on the left of exactly the terminals, keep decisions and cached states, and tree_fn(result, x) == tree_fn(old, x).map(a) for every x (the affine special case of the law). BOUNDED (bc compose')
 PROPS['C02']['assumptions'] = PROPS['C02']['assumptions'] + ASSUME_SLAB + ASSUME_PWL
+# the grafting loop itself is under contract since unit pwl_compose
+PROPS['C02']['units'] = ['pwl_schema', 'pwl_tree', 'pwl_compose']
+PROPS['C02']['level'] = 'proof'
+PROPS['C02']['technique'] = ('Verus contracts on the extracted text of AffTree::compose / generic_composition_inplace (instantiated for FunctionComposition + NoOpVis, i.e. compose::<false,false>), '
+                             'the composition schemas, apply_func and the Tree / AffFunc functions they call, against the real-arithmetic ndarray shim: forall trees f, g, forall x: '
+                             'tree_fn(result, x) == tree_fn(f, x).and_then(|y| tree_fn(g, y)); bounded replay (bc compose) cross-checks the contract against the compiled code for K in {2,4}')
+PROPS['C02']['level_text'] = ('PROVED modulo "f64 = reals" and the assumptions listed (Verus, every K >= 2, every pair of well-formed trees of any shape / index layout with matching dimensions, every input x): '
+    'AffTree::compose::<false,false>(f, g) leaves a well-formed tree h with tree_fn(h, x) == match tree_fn(f, x) { None => None, Some(y) => tree_fn(g, y) } (definedness included), '
+    'g is only borrowed immutably, every node of f keeps its index and parent, decisions of f are untouched. The proof goes through the real loop nest of generic_composition_inplace '
+    '(terminal loop, explicit work stack, children loop) with a ghost copy map lhs-node -> new node (predicates graft_inv / stack_ok / kids_progress), uses the contracts of '
+    'update_decision (row i of the new predicate holds at x iff row i of the old one holds at f_t(x)) and update_terminal (g_leaf after f_t), Tree::add_child_node / update_node, and shows the '
+    'pruning branch (remove_child / merge_child_with_parent) unreachable for this schema. Also proved: the general form for an arbitrary list of distinct terminals (comp_fn), which is what '
+    'the arithmetic operators use, and AffTree::apply_func / apply_func_at_node (affine special case). '
+    'Termination of the work-stack loop is not proved (exec_allows_no_decreases_clause). '
+    'BOUNDED cross-check (bc compose, K in {2,4}): the same law on the compiled code incl. right operand unchanged and node indices kept; compose::<true,_> is covered by C03.')
+PROPS['C02']['assumptions'] = PROPS['C02']['assumptions'] + [
+    'rule G1 (generic specialisation): generic_composition_inplace<I, C, V> is verified for I = Vec<TreeIndex>, C = FunctionComposition, V = NoOpVis: the type parameters and the visitor calls (no-ops for NoOpVis) are dropped, C::update_decision / C::update_terminal / C::explore are replaced by the verified functions of that impl (explore == true), `for terminal_idx in iter` is the index loop over the vector; compose<PRUNE, VERBOSE> keeps only its PRUNE = VERBOSE = false branch',
+    'rule I7c: `for (pos, edg) in lhs.tree.children(i).enumerate()` is the index loop over children_vec (verified helper: existing children in ascending label order); `edg.target_value` is read through tree_node(child)',
+    'termination of `while let Some(..) = stack.pop()` in generic_composition_inplace is not proved',
+    'Tree::remove_child / merge_child_with_parent appear only in the branch proved unreachable here; their contracts are discharged in unit tree_graph (C12)',
+]
 
 PROPS['C17'].update({
     'level': 'other',
